@@ -165,14 +165,14 @@ def run_case(case, g, tier, res):
             want = sorted(set([round(n * m, 6), round((n - 1) * m, 6)]))
             c.prove(all(any(abs(a - w) < 1e-6 for w in want) for a in args) or not args, "interval probability is cdf(value) - cdf(previous)",
                     detail("the mass interval handed to the distribution is not [mass before the last unit, mass after it]"))
-        c.prove(p == ref, "ensemble probability equals the generator's law", detail("ensemble probability differs from the generation probability"))
+        c.prove(p == ref, "ensemble probability equals the generator's law", detail("ensemble probability differs from the generation probability"), fatal=False)
         # foreign atom
         foreign = smi.replace("[Si]", "[Ge]") if "[Si]" in smi else smi.replace("N", "P", 1)
         p0, _ = g.get_ensemble_prob(foreign, mol)
         c.prove(p0 == 0, "foreign molecule has probability 0", detail("a molecule outside the ensemble gets a positive probability"))
         for s2 in renumberings(smi, 2 if tier == "quick" else 3):
             p2, _ = g.get_ensemble_prob(s2, mol)
-            c.prove(p2 == p, "independent of atom order", detail(f"the value depends on the atom order of the SMILES"))
+            c.prove(p2 == p, "independent of atom order", detail(f"the value depends on the atom order of the SMILES"), fatal=False)
         return str(p)
 
     explore_case(res, h, tier, on_path=on_path, budget_s=600)
@@ -193,7 +193,7 @@ def replay(rp, gb):
         return p0 != 0, f"foreign {foreign}: {p0}"
     if label.startswith("the value depends on the atom order"):
         vals = [gb.get_ensemble_prob(s2, mol)[0] for s2 in renumberings(smi, 3)]
-        return any(abs(v - p) > 1e-9 * max(1.0, abs(p)) for v in vals), f"{p} vs {vals}"
+        return any(abs(v - p) > 1e-6 * max(abs(v), abs(p)) and max(abs(v), abs(p)) > 1e-300 for v in vals), f"{p} vs {vals}"
     ref = 1.0
     k = 0
     for el in mol._elements:
